@@ -315,6 +315,14 @@ func (h *c14Hist) materialise(env *Env) (*simrt.History, []*c14Key) {
 				cwd = "/"
 			case "elsewhere":
 				cwd = "/elsewhere/dir"
+			case "linked":
+				// the working directory was entered through a symbolic link that stands next to the
+				// tree and leads somewhere deeper: the logical path ($PWD, what Getwd reports) and the
+				// physical one disagree about what ".." is
+				lnk := path.Join(path.Dir(mount), ".cwlink")
+				out.Steps = append(out.Steps, simrt.Step{Kind: "write", File: "/elsewhere/deep/a/b/c/d/keep.txt", Data: []byte("x")}, simrt.Step{Kind: "symlink", File: lnk, Link: "/elsewhere/deep/a/b/c/d"})
+				keys = append(keys, nil, nil)
+				cwd = lnk
 			}
 			out.Steps = append(out.Steps, simrt.Step{Kind: "chdir", Dir: cwd})
 			keys = append(keys, nil)
@@ -571,7 +579,7 @@ func c14GenOdd(r *Run, rng *gen.Rng, corpus []string, oddPool []string) *c14Hist
 		case k < 90:
 			h.Steps = append(h.Steps, c14Step{Kind: "move", What: "exe", To: rng.Pick(exes)})
 		case k < 97:
-			h.Steps = append(h.Steps, c14Step{Kind: "chdir", Where: rng.Pick([]string{"mount", "parent", "root", "elsewhere", "elsewhere"})})
+			h.Steps = append(h.Steps, c14Step{Kind: "chdir", Where: rng.Pick([]string{"mount", "parent", "root", "elsewhere", "elsewhere", "linked"})})
 		default:
 			h.Steps = append(h.Steps, c14Step{Kind: "epoch", Jump: int64(rng.Intn(1 << 20))})
 		}
